@@ -110,6 +110,26 @@ func (r *Run) Classify(path *Path, i int) GuardClass {
 	}
 	cond := ast.Unparen(ev.Cond)
 	val := ev.Val
+	// strip negations, then: a parameter of a looked-into helper stands for the caller's argument
+	for {
+		u, ok := cond.(*ast.UnaryExpr)
+		if !ok || u.Op != token.NOT {
+			break
+		}
+		cond, val = ast.Unparen(u.X), !val
+	}
+	if id, ok := cond.(*ast.Ident); ok {
+		if bfn, bx := resolveBound(fn, id); bfn != fn || bx != ast.Expr(id) {
+			fn, info, cond = bfn, bfn.Info(), ast.Unparen(bx)
+			for {
+				u, ok := cond.(*ast.UnaryExpr)
+				if !ok || u.Op != token.NOT {
+					break
+				}
+				cond, val = ast.Unparen(u.X), !val
+			}
+		}
+	}
 	// a condition that is (the result of) a looked-into helper: classify what the helper returned
 	for hop := 0; hop < 3; hop++ {
 		var rhs ast.Expr
